@@ -175,6 +175,8 @@ Fixpoint state_after (s : st) (tr : list msg) : st :=
 Inductive cev :=
 | CRequest (c : circuit) (rooms : list rid)      (* process_remote_event -> request_locks(c, rooms, lock_reply) *)
 | CTake (c : circuit)                            (* the loop receives the oldest grant and spawns its task *)
+| CTakeFail (c : circuit)                        (* the same while the connection's query channel is closed: the task
+                                                    starts, fails at its first request and unlocks at once *)
 | CFinish (c : circuit) (r : rid)                (* a running task of c for r ends: unlock(r); acquired_lock.remove(r) *)
 | CEnd (c : circuit).                            (* the loop ends: cleanup(acquired_lock); close and drain lock_receiver *)
 
@@ -222,6 +224,14 @@ Definition cev_msgs (cs : list conn) (e : cev) : list msg * list conn :=
       | [] => ([], cs)
       | r :: rest => ([], set_conn cs {| cn_c := c; cn_inbox := rest; cn_acq := insert_sorted r (cn_acq x);
                                          cn_tasks := r :: cn_tasks x; cn_ended := false |})
+      end
+  | CTakeFail c =>
+      let x := find_conn cs c in
+      if cn_ended x then ([], cs) else
+      match cn_inbox x with
+      | [] => ([], cs)
+      | r :: rest => ([Unlock c r], set_conn cs {| cn_c := c; cn_inbox := rest; cn_acq := cn_acq x;
+                                                   cn_tasks := cn_tasks x; cn_ended := false |})
       end
   | CFinish c r =>
       let x := find_conn cs c in
